@@ -28,7 +28,7 @@ func Resolve(want, got *Tree, m Mode) *Tree {
 	g := strip(got, m)
 	switch want.Kind {
 	case KNode:
-		if want.RT == parenPtr && m == Output && (g == nil || g.Kind != KNode || g.RT != parenPtr) {
+		if want.RT == parenPtr && m.output() && (g == nil || g.Kind != KNode || g.RT != parenPtr) {
 			// keep the parenthesis, resolve inside against the same got
 			c := *want
 			c.Kids = append([]*Tree(nil), want.Kids...)
@@ -77,7 +77,7 @@ func Resolve(want, got *Tree, m Mode) *Tree {
 		gi := 0
 		for _, k := range elems {
 			var gk *Tree
-			if m == Output && k.Kind == KNode && k.RT == emptyStmtPtr {
+			if m.output() && k.Kind == KNode && k.RT == emptyStmtPtr {
 				c.Kids = append(c.Kids, k)
 				continue
 			}
